@@ -336,10 +336,12 @@ class SchemaBuilder(
                 required=[p.alias for p in properties if p.required],
                 additionalProperties=additional_properties,
                 patternProperties=pattern_properties,
+                # AliasedStr in order to have the aliaser applied, as for properties
                 dependentRequired={
-                    alias_by_names(f): sorted(
-                        map(alias_by_names, dependent_required[f])
-                    )
+                    AliasedStr(alias_by_names(f)): [
+                        AliasedStr(req)
+                        for req in sorted(map(alias_by_names, dependent_required[f]))
+                    ]
                     for f in sorted(dependent_required, key=alias_by_names)
                 },
             )
